@@ -108,6 +108,8 @@ def scope(tier, seed):
             + ('F lists of <=1 subset and [P,S] (LTL/CTL* on the quarter of the representatives with '
                'index %% 4 == %d)' % (seed % 4) if tier == 'quick' else 'all 73 F lists')
             + ' x formulas over {p}' + ('' if tier == 'quick' else '; size-2 formulas on K(<=2)')
+            + '; CTL formulas with quantified operands (Q[a U/R b], Q[b U a], QX/QF/QG b; b one-operator '
+            'quantified) on the K(3,{p}) representatives' + (' (a seed-indexed third of the formulas on half of the structures)' if tier == 'quick' else '')
             + '; additionally one-operator formulas over the literal leaves p, not p, q, not q ('
             + ('CTL only' if tier == 'quick' else 'all three logics') + ')'}
 
@@ -124,6 +126,8 @@ def plan(tier, seed):
         sh.append(['mc2', lo, hi, 0])
     for lo, hi in chunks(len(_k3()), 8):
         sh.append(['mc3', lo, hi])
+    for lo, hi in chunks(len(_k3()), 16):
+        sh.append(['mc3n', lo, hi])
     if tier == 'thorough':
         for lo, hi in chunks(82, 1):
             sh.append(['mc2', lo, hi, 1])
@@ -278,6 +282,37 @@ def run_shard(shard, tier, seed, acc):
                         if r == 'stop':
                             Kl = lib.to_kripke(k)
             acc.sample({'k': k.to_json(), 'F': 'all lists of <=2 subsets', 'logics': ['CTL', 'LTL', 'CTLS']})
+        return
+    if kind == 'mc3n':
+        # CTL formulas whose operands are themselves quantified (the fair rewriting must reach them):
+        # Q[a T b] with a in {p, not p, true}, b a one-operator quantified formula, and Q T b
+        Pp = spaces.P
+        inner = [f for f in spaces.ctl_by_size(1, (Pp,)) if f[0] in ('A', 'E')]
+        outer = []
+        for b in inner:
+            for qn in 'AE':
+                for a in (Pp, ('not', Pp), spaces.T):
+                    outer.append((qn, ('U', a, b)))
+                    outer.append((qn, ('R', a, b)))
+                    outer.append((qn, ('U', b, a)))
+                for tp in 'XFG':
+                    outer.append((qn, (tp, b)))
+        if tier == 'quick':
+            outer = outer[(seed % 3)::3]
+        Fl = f_lists(3, 1)
+        for ki, k in enumerate(_k3()[shard[1]:shard[2]]):
+            if tier == 'quick' and (shard[1] + ki) % 2 != (seed // 3) % 2:
+                continue
+            Kl = lib.to_kripke(k)
+            for j, f in enumerate(outer):
+                if deadline_passed():
+                    acc.capped()
+                    return
+                for i, F in enumerate(Fl):
+                    r = check_mc(k, Kl, F, 'CTL', f, acc, as_frozen=((i + j) % 2 == 1))
+                    if r == 'stop':
+                        Kl = lib.to_kripke(k)
+        acc.sample({'k': _k3()[shard[1]].to_json(), 'formula': 'A(p U A(F(p)))', 'F': 'all lists of <=1 set'})
         return
     if kind == 'mc3':
         for ki, k in enumerate(_k3()[shard[1]:shard[2]]):
